@@ -10,6 +10,16 @@ CLAIMED = {
         'Trusted: PyVC encoding of Python semantics (DESIGN 2.4), z3/cvc5, parso split_lines gives a non-empty '
         'line list; inference engine behind the API is not under contract.',
         'contract-based deductive verification (PyVC VC generation from the real AST + z3/cvc5)', 'DESIGN.md 6/C01'),
+    'C04': (
+        'Deductive: match/_start_match/_fuzzy_match proved equal to the prefix / greedy-subsequence spec for all '
+        'strings (recursion with decreases); Completion._complete/complete/name_with_symbols proved: complete is the '
+        'missing suffix of name_with_symbols, None when fuzzy; filter_names proved by loop invariant + generator rule: '
+        'every yielded completion matches the (case-folded) fragment, carries the length of the fragment as typed, '
+        'and no (name, complete) key is yielded twice.',
+        'Trusted: PyVC encoding (DESIGN 2.4) incl. str.lower as uninterpreted idempotent function, z3/cvc5, '
+        'Completion.__init__ stores its arguments, name objects are pure; attribute completeness (f) and the sort '
+        'order of Completion.complete are listed under not_decided until their contracts exist.',
+        'contract-based deductive verification (PyVC VC generation from the real AST + z3/cvc5)', 'DESIGN.md 6/C04'),
 }
 
 NOT_APPLICABLE = {
